@@ -4,6 +4,7 @@ import (
 	"context"
 	"fmt"
 	"math"
+	"math/big"
 	"os"
 	"os/exec"
 	"path/filepath"
@@ -30,9 +31,34 @@ type CrashCase struct {
 	Family string `json:"family,omitempty"`
 }
 
-var hostileToks = []string{"0x7fffffffffffffff", "99999999999999999999", "-9223372036854775808", "0xffffffffffffffff", "{{.", "{{.x}}", "}}", "$", "$$", "..", "[", "]", "(", ")", ",", ":", "+", "-", "*", "/", "%", "\"", "'", "\"unterminated", "0x", "0", "1", "256", "-1", "EQU", "GLOBAL", "EXTERN", "BYTE", "WORD", "DWORD", "SHORT", "NEAR", "FAR", "PTR", "ORG", "RESB", "ALIGNB", "TIMES", "END", "DB", "DW", "DD", "INT", "MOV", "JMP", "CALL", "LGDT", "PUSH", "IMUL", "IN", "OUT", "AX", "EAX", "AL", "CR0", "DS", "ES:", "[BX]", "[EAX*9]", "[ESP*2]", "[BX+BP]", "[BITS", "32]", "[FORMAT", "\"WCOFF\"]", "[FILE", "label:", "x:", "\t", ";", "#"}
+var hostileToks = []string{"0x7fffffffffffffff", "99999999999999999999", "-9223372036854775808", "0xffffffffffffffff", "{{.", "{{.x}}", "}}", "$", "$$", "..", ".loop", "a$b", "$x", "x.", "@f", "?x", "[", "]", "(", ")", ",", ":", "+", "-", "*", "/", "%", "\"", "'", "\"unterminated", "0x", "0", "1", "256", "-1", "EQU", "GLOBAL", "EXTERN", "BYTE", "WORD", "DWORD", "SHORT", "NEAR", "FAR", "PTR", "ORG", "RESB", "ALIGNB", "TIMES", "END", "DB", "DW", "DD", "INT", "MOV", "JMP", "CALL", "LGDT", "PUSH", "IMUL", "IN", "OUT", "AX", "EAX", "AL", "CR0", "DS", "ES:", "[BX]", "[EAX*9]", "[ESP*2]", "[BX+BP]", "[BITS", "32]", "[FORMAT", "\"WCOFF\"]", "[FILE", "label:", "x:", "\t", ";", "#"}
 
 var outOfRangeReserve = regexp.MustCompile(`(?i)\b(RESB|RESW|RESD|ALIGNB|TIMES)\b[^\n]*?(0x[0-9a-f]{7,}|[0-9]{8,})`)
+
+// a RESB whose only operand is one literal beyond 2^31-1: gosk must refuse it (the location counter
+// has 32 bits), so it costs nothing to run
+var plainHugeReserve = regexp.MustCompile(`(?i)^\s*(?:[A-Za-z_][A-Za-z0-9_]*:)?\s*RESB\s+(0x[0-9a-f]+|[0-9]+)\s*(?:[;#].*)?$`)
+
+// asksForHugeOutput: some line reserves (or may reserve) more than 16 MiB of output that gosk would really produce.
+func asksForHugeOutput(src string) bool {
+	if !outOfRangeReserve.MatchString(src) {
+		return false
+	}
+	for _, line := range strings.Split(src, "\n") {
+		if !outOfRangeReserve.MatchString(line) {
+			continue
+		}
+		m := plainHugeReserve.FindStringSubmatch(line)
+		if m == nil {
+			return true
+		}
+		v, ok := new(big.Int).SetString(strings.TrimPrefix(strings.ToLower(m[1]), "0x"), map[bool]int{true: 16, false: 10}[strings.HasPrefix(strings.ToLower(m[1]), "0x")])
+		if !ok || v.Cmp(big.NewInt(1<<31-1)) <= 0 {
+			return true
+		}
+	}
+	return false
+}
 
 var c13LastOnce sync.Once
 var c13LastPath string
@@ -81,7 +107,7 @@ func confirmWithBinary(src string) (crashed bool, how string) {
 
 var hung string
 
-var identWithDotOrDollar = regexp.MustCompile(`[A-Za-z0-9_][.$]|[.$][A-Za-z0-9_.$]`)
+var identWithDotOrDollar = regexp.MustCompile(`[A-Za-z0-9_][.$]|[.$][A-Za-z0-9_.$]|(^|[\s,\[:])\.+($|[\s,\]:])|[@?~!^&|<>=\x60\\]`)
 
 // safeForExec: the text cannot reach an os.Exit inside frontend.Exec (pass 2 runs operands that
 // contain "{{." through text/template; label names with '.' or '$' end up inside such operands).
@@ -192,7 +218,7 @@ func checkC13(c CrashCase) Verdict {
 		return checkGrowth(c)
 	}
 	v := Verdict{Key: c.Src, Class: c.Kind}
-	if outOfRangeReserve.MatchString(c.Src) {
+	if asksForHugeOutput(c.Src) {
 		v.Skip = "asks for more than 16 MiB of output (time bounded by the output, not the input)"
 		return v
 	}
@@ -392,7 +418,7 @@ var scaleFamilies = []string{"statements", "dblist", "parens", "sum", "labels", 
 
 var propC13 = &Prop[CrashCase]{
 	ID:     "C13",
-	Rule:   "(a) token- and line-level mutants (delete/duplicate/replace/insert/swap tokens, delete/duplicate/join lines, splice operands; replacement tokens from the program itself or a hostile pool: 64-bit-overflowing numbers, '{{.', '$', unbalanced brackets and quotes, keywords, bad addressing) of generated programs and corpus sources; (b) every grammar mnemonic with 0..4 operands of every kind; (c) scaled inputs (long statement lists, DB lists, nested parentheses, sums, many labels, EQU chains, widening branches, long lines) - size 1e3..1e4 tokens in-process, and CPU-time growth measured on the binary; oracle: no panic / runtime fatal error / hang (in-process finding confirmed through the real binary), growth exponent <= 2.2; non-trivial = the input parses (reaches pass 1), counted apart from parse-rejected inputs; distinct by input text",
+	Rule:   "(a) token- and line-level mutants (delete/duplicate/replace/insert/swap tokens, delete/duplicate/join lines, splice operands; replacement tokens from the program itself or a hostile pool: 64-bit-overflowing numbers, '{{.', '$', unbalanced brackets and quotes, keywords, bad addressing) of generated programs and corpus sources; identifiers of unusual shape (leading/trailing dots, $, @, ?, template braces, 300 characters, register and keyword look-alikes) as labels, branch targets, EQU/GLOBAL/EXTERN names and operands; (b) every grammar mnemonic with 0..4 operands of every kind; (c) scaled inputs (long statement lists, DB lists, nested parentheses, sums, many labels, EQU chains, widening branches, long lines) - size 1e3..1e4 tokens in-process, and CPU-time growth measured on the binary; oracle: no panic / runtime fatal error / hang (in-process finding confirmed through the real binary), growth exponent <= 2.2; non-trivial = the input parses (reaches pass 1), counted apart from parse-rejected inputs; distinct by input text",
 	Assume: []string{"asm.AssembleNoExit restates frontend.Exec without os.Exit; every crash is re-run through the gosk binary before it is reported"},
 	Gen: func(t *rapid.T) CrashCase {
 		loadCorpus()
@@ -406,6 +432,23 @@ var propC13 = &Prop[CrashCase]{
 			zero := rapid.SampledFrom([]string{"", "", "/0", "/(1-1)", "%(2-2)", "/qz", "%qz", "/$", "*0x7fffffffffffffff", "-9223372036854775807-1", "/(qz*5)"}).Draw(t, "zero")
 			text := ec.E.Render() + zero
 			return CrashCase{Src: ec.header() + "qz\tEQU\t0\n" + ec.equLines() + ec.stmt(text, false, 0), Kind: "expr"}
+		}
+		if rapid.IntRange(0, 11).Draw(t, "identfam") == 0 {
+			// identifiers of unusual shape (local-label dots, $, @, ?, template braces, very long, digits first) as
+			// labels, branch targets, EQU names, GLOBAL/EXTERN names and plain operands
+			idents := []string{".loop", "a$b", "$x", "x.", "a.b", "..", ".", "@f", "?x", "x?", "_", "__", "$", "$$", "x#y", "x~", "{{.x}}", "{{x", "x}}", "a{{.}}b",
+				"9lives", "0x", "0xg", "1b", strings.Repeat("long_", 60), "\u00e9t\u00e9", "EAX", "eax", "Mov", "db", "equ", "SHORT", "near", "BYTE", "st0", "cr8", "dr0", "mm0", "xmm0", "k1", "r8d"}
+			var sb strings.Builder
+			if rapid.Bool().Draw(t, "identcoff") {
+				sb.WriteString("[FORMAT \"WCOFF\"]\n[BITS 32]\n")
+			}
+			for j := rapid.IntRange(1, 5).Draw(t, "identn"); j > 0; j-- {
+				id := rapid.SampledFrom(idents).Draw(t, "ident")
+				use := rapid.SampledFrom([]string{"%s:\n", "\tJMP %s\n", "\tCALL %s\n", "\tJE %s\n", "%s\tEQU\t5\n", "\tMOV AX,%s\n", "\tDW %s\n", "\tGLOBAL %s\n", "\tEXTERN %s\n", "\tMOV AX,[%s]\n", "\tLGDT [%s]\n", "\tDB %s\n", "%s:\n\tJMP %s\n", "\tJMP %s\n%s:\n", "\tMOV EAX,%s+1\n", "\tPUSH %s\n"}).Draw(t, "identuse")
+				n := strings.Count(use, "%s")
+				fmt.Fprintf(&sb, use, []any{id, id}[:n]...)
+			}
+			return CrashCase{Src: sb.String(), Kind: "ident"}
 		}
 		if rapid.IntRange(0, 7).Draw(t, "equfam") == 0 {
 			// EQU graphs: bodies over other names (defined earlier, later, or themselves), plain or wrapped
